@@ -65,6 +65,52 @@ func gen(r *hx.Rand, n int) []string {
 		var live []int
 		rects := map[int]rc{}
 		next := 0
+		var cluster *rc
+		if r.Chance(1, 4) {
+			// cluster-then-drain: more nodes than the threshold in one small region (so the tree node over it splits, possibly
+			// several levels deep) plus a few far-away survivors, then every node of the cluster is removed again - the split
+			// structure stays behind, empty - and the probes below include rectangles covering the emptied region
+			th = []int{4, 5, 8}[r.Intn(3)]
+			cx, cy := coord(r, isInt, span), coord(r, isInt, span)
+			cw := float64(r.Range(4, 16))
+			cluster = &rc{cx - 1, cy - 1, cw + 4, cw + 4}
+			far := r.Range(1, 3)
+			for i := 0; i < far; i++ {
+				q := rc{cx + float64(r.Range(40, 90))*float64(1-2*r.Intn(2)), cy + float64(r.Range(40, 90))*float64(1-2*r.Intn(2)), float64(r.Range(1, 4)), float64(r.Range(1, 4))}
+				rects[next] = q
+				ops = append(ops, fmt.Sprintf("ins %d %s %s %s %s", next, hx.RatF(q.x), hx.RatF(q.y), hx.RatF(q.w), hx.RatF(q.h)))
+				next++
+			}
+			k := th + r.Range(1, 3*th)
+			var cl []int
+			for i := 0; i < k; i++ {
+				q := rc{cx + float64(r.Range(0, int(cw)*8))/8, cy + float64(r.Range(0, int(cw)*8))/8, float64(r.Range(1, 16)) / 8, float64(r.Range(1, 16)) / 8}
+				if isInt {
+					q = rc{cx + float64(r.Range(0, int(cw))), cy + float64(r.Range(0, int(cw))), float64(r.Range(1, 2)), float64(r.Range(1, 2))}
+				}
+				rects[next] = q
+				cl = append(cl, next)
+				ops = append(ops, fmt.Sprintf("ins %d %s %s %s %s", next, hx.RatF(q.x), hx.RatF(q.y), hx.RatF(q.w), hx.RatF(q.h)))
+				next++
+			}
+			if r.Chance(1, 3) {
+				ops = append(ops, "reorg")
+			}
+			keep := 0
+			if r.Chance(1, 3) {
+				keep = r.Range(1, 2)
+			}
+			for i := len(cl) - 1; i >= keep; i-- { // removal in a shuffled order
+				j := r.Intn(i + 1)
+				cl[i], cl[j] = cl[j], cl[i]
+				ops = append(ops, fmt.Sprintf("rem %d", cl[i]))
+			}
+			live = append(live, cl[:keep]...)
+			for i := 0; i < far; i++ {
+				live = append(live, i)
+			}
+			nops = r.Range(0, 6)
+		}
 		for k := 0; k < nops; k++ {
 			switch v := r.Intn(20); {
 			case v < 13:
@@ -118,6 +164,18 @@ func gen(r *hx.Rand, n int) []string {
 			pts[1] = hx.RatF(e.x+e.w) + ":" + hx.RatF(e.y+e.h)
 			prs[0] = hx.RatF(e.x) + ":" + hx.RatF(e.y) + ":" + hx.RatF(e.w) + ":" + hx.RatF(e.h)
 			break
+		}
+		// a probe rectangle covering everything ever stored, and (cluster cases) one covering exactly the emptied region
+		big := float64(span + 600)
+		prs = append(prs, hx.RatF(-big)+":"+hx.RatF(-big)+":"+hx.RatF(2*big)+":"+hx.RatF(2*big))
+		if cluster != nil {
+			prs[1] = hx.RatF(cluster.x) + ":" + hx.RatF(cluster.y) + ":" + hx.RatF(cluster.w) + ":" + hx.RatF(cluster.h)
+			prs[2] = hx.RatF(cluster.x-float64(r.Range(0, 30))) + ":" + hx.RatF(cluster.y-float64(r.Range(0, 30))) + ":" + hx.RatF(cluster.w+float64(r.Range(30, 60))) + ":" + hx.RatF(cluster.h+float64(r.Range(30, 60)))
+			hw, hh := cluster.w/2, cluster.h/2
+			if isInt { // whole numbers only: T(p) would truncate a fraction
+				hw, hh = float64(int(hw)), float64(int(hh))
+			}
+			pts[2] = hx.RatF(cluster.x+hw) + ":" + hx.RatF(cluster.y+hh)
 		}
 		k := "f"
 		if isInt {
